@@ -8,6 +8,7 @@ import (
 	"go/ast"
 	"go/token"
 	"go/types"
+	"sort"
 	"strings"
 
 	"golang.org/x/tools/go/ssa"
@@ -140,8 +141,10 @@ func (c *FnCtx) applyContract(fr *frame, st *State, con *Contract, ca callArgs, 
 		switch v.K {
 		case kSlice, kPtr:
 			c.assume(st, or(eq(v.Ref, "0"), and(sx(">=", v.Ref, pre.wm), sx("<", v.Ref, st.wm))))
-		case kIface, kMap:
+		case kMap:
 			c.assume(st, or(eq(v.S, "0"), and(sx(">=", v.S, pre.wm), sx("<", v.S, st.wm))))
+		case kIface:
+			c.assume(st, or(eq(v.S, "0"), and(sx(">=", v.S, pre.wm), sx("<", v.S, st.wm)), and(sx(">=", sx("unbox", v.S), pre.wm), sx("<", sx("unbox", v.S), st.wm))))
 		}
 	}
 	post := mk(st, pre)
@@ -204,6 +207,37 @@ func lastName(s string) string {
 // applyModifies havocs the target of one modifies clause. The target is
 // evaluated in the pre-state.
 func (c *FnCtx) applyModifies(st, pre *State, ec *evalCtx, m *Clause) {
+	if m.Cond != nil {
+		// conditional frame: the havoc takes effect only when COND held in the pre-state
+		cond := c.defAlways("modcond", "Bool", ec.boolOf(m.Cond))
+		before := map[string]string{}
+		for k, v := range st.heap {
+			before[k] = v
+		}
+		ep := st.ep
+		mm := *m
+		mm.Cond = nil
+		c.applyModifies(st, pre, ec, &mm)
+		if st.ep != ep {
+			bail("conditional 'modifies heap' is not supported")
+		}
+		var keys []string
+		for k := range st.heap {
+			keys = append(keys, k)
+		}
+		sort.Strings(keys)
+		for _, k := range keys {
+			nv := st.heap[k]
+			ov, ok := before[k]
+			if !ok {
+				ov = c.epochGet(st.ep, k)
+			}
+			if ov != nv {
+				st.heap[k] = c.defAlways(k, c.heapSortOf(k), ite(cond, nv, ov))
+			}
+		}
+		return
+	}
 	if id, ok := m.Expr.(*ast.Ident); ok && id.Name == "heap" {
 		c.havocAll(st, "modifies heap")
 		return
@@ -567,6 +601,31 @@ func (eng *Engine) verifyFunction(fn *ssa.Function, con *Contract, bounded int) 
 		}
 		if con.Panics != nil && !con.PanicsMay {
 			c.oblige(rst, "post", "documented panic condition excludes a normal return", not(c.panicCond), fn.Pos(), "panics_when "+con.Panics.Text)
+		}
+		// fresh results: nil or allocated during the call
+		for _, f := range con.Fresh {
+			v, ok := pc.names(f)
+			if !ok {
+				bail("contract %s: fresh %s: unknown result", con.Key, f)
+			}
+			var t string
+			switch v.K {
+			case kSlice, kPtr:
+				t = or(eq(v.Ref, "0"), sx(">=", v.Ref, c.entry.wm))
+			case kMap:
+				t = or(eq(v.S, "0"), sx(">=", v.S, c.entry.wm))
+			case kIface:
+				// an interface value is new when it is one, or boxes a new pointer
+				t = or(eq(v.S, "0"), sx(">=", v.S, c.entry.wm), sx(">=", sx("unbox", v.S), c.entry.wm))
+			default:
+				continue
+			}
+			c.oblige(rst, "post", "result is nil or newly allocated", t, fn.Pos(), "fresh "+f)
+		}
+		// frame: nothing but the declared locations changed
+		if bounded == 0 {
+			fe := &evalCtx{c: c, st: c.entry, old: nil, pkg: pkg, preds: con.Preds, names: c.resolver(fr, nil, nil), bound: c.lets}
+			c.frameCheck(fr, con, rst, fe)
 		}
 	}
 	// reachability cover of the normal return
